@@ -23,7 +23,7 @@ var streamsCommon = []Stream{
 	{Labels: map[string]string{"job": "j", "a": "x", "b": "1"}, Type: 1, FP: 101},
 	{Labels: map[string]string{"job": "j", "a": "x", "b": "2"}, Type: 1, FP: 102},
 	{Labels: map[string]string{"job": "j", "a": "y", "b": "1"}, Type: 0, FP: 103}, // type "both"
-	{Labels: map[string]string{"job": "j", "a": "x", "b": "3"}, Type: 2, FP: 104}, // metric samples: never part of a LogQL result
+	{Labels: map[string]string{"job": "j", "a": "x", "b": "1"}, Type: 2, FP: 101}, // a metric series with the label set (hence fingerprint) of stream 0: its samples are never part of a LogQL result
 	{Labels: map[string]string{"job": "o", "a": "x", "b": "1"}, Type: 1, FP: 105}, // not selected by {job="j"}
 }
 
@@ -39,18 +39,18 @@ func (pe poolEntry) at(rangeS int) int64 {
 	return pe.num*int64(rangeS)*sec/pe.den + pe.off
 }
 
-// timePool: one stream over seven positions (just before the first bucket, on a boundary, inside, last ns of a
-// bucket, on the next boundary, inside the second bucket, fourth bucket), a second stream at two of them.
+// timePool: one stream over eight positions, a second stream at two of them.
 // Lines differ in length, in containing "k", and in v.
 var timePool = []poolEntry{
-	{0, 0, 1, -1, `{"v":9,"m":"k","pad":"......"}`},
-	{0, 0, 1, 0, `{"v":1,"m":"k"}`},
-	{0, 2, 5, 0, `{"v":2,"m":"qq"}`},
-	{0, 1, 1, -1, `{"v":4,"m":"k k"}`},
-	{0, 1, 1, 0, `{"v":3,"m":"q"}`},
-	{0, 8, 5, 0, `{"v":6,"m":"kkkk"}`},
-	{0, 16, 5, 0, `{"v":5,"m":"q","pad":"."}`},
-	{2, 2, 5, 0, `{"v":7,"m":"k"}`},
+	{0, 0, 1, -1, `{"v":9,"m":"k","pad":"......"}`}, // last ns before bucket 0
+	{0, 0, 1, 0, `{"v":1,"m":"k"}`},                 // on the boundary
+	{0, 2, 5, 0, `{"v":2,"m":"qq"}`},                // inside bucket 0 (from = 0.4 range: exactly on an unaligned `from`)
+	{0, 1, 1, -1, `{"v":4,"m":"k k"}`},              // last ns of bucket 0
+	{0, 1, 1, 0, `{"v":3,"m":"q"}`},                 // first ns of bucket 1
+	{0, 11, 5, 0, `{"v":6,"m":"kkkk"}`},             // bucket 2: the bucket that contains to = 2 or 2.4 ranges, before `to`=2.4
+	{0, 13, 5, 0, `{"v":7,"m":"kq","pad":"...."}`},  // bucket 2, after every such `to`, inside the widened window
+	{0, 16, 5, 0, `{"v":5,"m":"q","pad":"."}`},      // bucket 3: outside for to <= 2.4 ranges, inside for to = 4 ranges
+	{2, 2, 5, 0, `{"v":7,"m":"k"}`},                 // second stream
 	{2, 1, 1, 0, `{"v":8,"m":"qqq"}`},
 }
 
@@ -528,8 +528,8 @@ func (g *generator) special(serFam, timeFam *dbFamily) {
 	}
 	// (h) shapes the SQL path does not take or the planner rejects: listed as unsupported, never judged
 	for _, q := range []*Query{
-		{Matchers: selJ, Stages: []Stage{{Kind: "unwrap", Label: "b"}}, Fn: "sum_over_time", RangeS: 5},                               // unwrap of a stored label without a parser stage
-		{Matchers: selJ, Fn: "absent_over_time", RangeS: 5},                                                                           // evaluated by the in-process engine (C09)
+		{Matchers: selJ, Stages: []Stage{{Kind: "unwrap", Label: "b"}}, Fn: "sum_over_time", RangeS: 5}, // unwrap of a stored label without a parser stage
+		{Matchers: selJ, Fn: "absent_over_time", RangeS: 5},                                             // evaluated by the in-process engine (C09)
 	} {
 		for _, d := range serFam.dbs[5][:3] {
 			g.add("L5-unsupported", q, d, window{0, 10}.params(5, 5000), false)
